@@ -99,6 +99,30 @@ Proof.
       split; [|exact PE]. apply (canon_of_perm v0 isz); auto.
 Qed.
 
+(* reshape of a subset of the modes (old_modes, any order): the kept modes first, then the new shape *)
+Theorem indep_reshape_modes (S S' : sparse V) s' old : wf S -> wf S' -> sshape S' = sshape S -> Permutation (entries S) (entries S') ->
+  Forall (fun k => k < length (sshape S)) old -> size s' = size (pick 0 old (sshape S)) ->
+  exists R R', reshape_sp S s' old = Some R /\ reshape_sp S' s' old = Some R' /\ same_result R R'.
+Proof.
+  intros W W' Hs P Ho Hsz.
+  destruct (reshape_sparse_correct v0 isz S s' old Ho Hsz (wf_bounds' S W)) as (R & E & _ & _ & _ & WR & _).
+  assert (Ho' : Forall (fun k => k < length (sshape S')) old) by (now rewrite Hs).
+  assert (Hsz' : size s' = size (pick 0 old (sshape S'))) by (now rewrite Hs).
+  destruct (reshape_sparse_correct v0 isz S' s' old Ho' Hsz' (wf_bounds' S' W')) as (R' & E' & _ & _ & _ & WR' & _).
+  exists R, R'. split; [exact E|]. split; [exact E'|].
+  specialize (WR W). specialize (WR' W').
+  unfold reshape_sp in E, E'. rewrite Hs in E'.
+  destruct (Nat.eqb (size s') (size (pick 0 old (sshape S)))); [|discriminate].
+  inversion E; subst R. inversion E'; subst R'.
+  split; [exact WR|]. split; [exact WR'|].
+  assert (PE : Permutation (entries (mkSp (pick 0 (keep_modes (length (sshape S)) old) (sshape S) ++ s')
+                                           (map (reshape_row (sshape S) s' old) (ssubs S)) (svals S)))
+                           (entries (mkSp (pick 0 (keep_modes (length (sshape S)) old) (sshape S) ++ s')
+                                           (map (reshape_row (sshape S) s' old) (ssubs S')) (svals S')))).
+  { rewrite !entries_map_subs by (now destruct W; now destruct W'). now apply Permutation_map. }
+  split; [|exact PE]. apply (canon_of_perm v0 isz); auto.
+Qed.
+
 (* to_sptenmat: the sparse matrix is well-formed for both stored orders, both denote the same array, and converting back
    returns the operand itself *)
 Theorem indep_to_sptenmat (S S' : sparse V) r c : wf S -> wf S' -> sshape S' = sshape S -> Permutation (entries S) (entries S') ->
